@@ -12,9 +12,11 @@ OBLIGATIONS = [
     'C16.squaring_undoes_scaling', 'C16.exp_commute', 'C16.cosh_plus_sinh_is_exp', 'C16.series_loop_invariant',
     'C16.even_series_parity', 'C16.odd_series_parity', 'C16.cos_cosh_on_blade', 'C16.sin_sinh_on_blade',
     'C16.exp_on_scalar_matches_real_exp', 'C16.cos_sin_on_scalar_match_real', 'C16.cosh_sinh_on_scalar_match_real', 'C16.exp_on_blade_matches_closed_form',
+    'C16.l1_submultiplicative', 'C16.l1_is_a_norm', 'C16.exp_truncations_cauchy', 'C16.exp_15_terms_suffice_general', 'C16.exp_scheme_general_partial',
 ]
 PARTIAL = ['on real scalars the closeness IS proved (exp with scaling and squaring within 1e-6 relative for |c| <= 2^18; cos, sin, cosh, sinh within 1e-12 for |c| <= 8: Mathlib remainder bounds; tan, tanh are quotients of these); '
-           'for blades it reduces to the same scalar statements for C_N(s), S_N(s); for general multivectors '
+           'for blades it reduces to the same scalar statements for C_N(s), S_N(s); for general multivectors the sum of the absolute coefficients is proved submultiplicative, '
+           'the truncations are proved Cauchy with the scalar modulus and the coded 15-term scale-and-square scheme is proved within 2^j 3^(2^j-1) 2/15! of the scheme with any number of terms (the limit itself is not formalised); '
            'closeness of the truncated polynomials to the real functions (and exp(A+B)=exp(A)exp(B), cos^2+sin^2=1 for the truncations) is analytic: compared with libm '
            'within the stated relative tolerance 1e-6, and with the exact-rational evaluation of the coded series within rounding, not proved']
 RULE = ("signatures incl. degenerate (n=2..4, n=5 thorough); 2-blades from integer vectors scaled to coefficient size in [1e-3, 30]; scalars in [-5, 5]; multivectors with "
@@ -214,6 +216,37 @@ def check_storage_orders(res, rng):
                                 dict(site, M=v.tolist()), b.tolist(), want.tolist(), dict(site, op='storage-order:' + name))
 
 
+def check_norm(res, rng, tier):
+    """the quantity `exp` scales by — the sum of the absolute coefficients — is submultiplicative on the real product (exact integers):
+    the premise `C16.l1_submultiplicative` is about, evaluated on the implementation for every signature class and a custom order"""
+    import numpy as np
+    import itertools
+    from harness import real
+    from clifford import MultiVector
+    sigs = [list(t) for n_ in (1, 2, 3) for t in itertools.product((1, -1, 0), repeat=n_)]
+    sigs += [[1, 1, 1, 1], [1, -1, 0, 1], [1, 1, 1, 1, -1], [0, 0, 1, -1, 1]]
+    if tier == 'thorough':
+        sigs += [list(t) for t in itertools.product((1, -1, 0), repeat=4)] + [[1, 1, 1, 1, 1, -1]]
+    for sig in sigs:
+        layouts = [real.make_layout(sig)]
+        if len(sig) == 3:
+            layouts.append(real.make_layout(sig, order=[3, 0, 1, 2, 4, 5, 6, 7]))
+        for L in layouts:
+            for r in range(2):
+                a = rng.integers(-9, 10, size=L.gaDims)
+                b = rng.integers(-9, 10, size=L.gaDims)
+                if r == 1:
+                    a = np.ones(L.gaDims, dtype=np.int64)          # the dense all-ones operand: norm 2^n, largest coefficient 1
+                A, B = MultiVector(L, a), MultiVector(L, b)
+                res.case(('l1-norm', str(sig), a.tolist(), b.tolist()), nontrivial=True)
+                res.count('l1_norm')
+                lhs = int(np.sum(np.abs((A * B).value)))
+                rhs = int(np.sum(np.abs(a))) * int(np.sum(np.abs(b)))
+                if lhs > rhs:
+                    res.violate('sum of absolute coefficients of A*B exceeds the product of the sums for A and B (the bound the scaling of exp relies on)',
+                                dict(sig=sig, A=a.tolist(), B=b.tolist()), lhs, rhs, dict(common.site_of(L), op='l1-norm'))
+
+
 def run_job(job, tier, seed):
     from harness import real
     import numpy as np
@@ -222,6 +255,7 @@ def run_job(job, tier, seed):
     ob = common.OpBatch()
     if job == 'series':
         common.gcall(res, check_storage_orders, rng)
+        common.gcall(res, check_norm, rng, tier)
         sigs = [[1, 1], [1, -1], [0, 1], [1, 1, 1], [1, 1, -1], [0, 1, 1], [-1, -1, -1], [1, 1, 1, 1], [1, 1, 1, -1], [0, 1, 1, 1], [1, -1, 1, -1]]
         if tier == 'thorough':
             sigs += [[1, 1, 1, 1, -1], [0, 0, 1, 1], [1] * 5]
